@@ -6,7 +6,7 @@ import vlib
 from vlib import Case, hx, unhx
 
 PROP = "C07"
-PROOF_FILES = ["Properties/C07.v"]
+PROOF_FILES = ["Properties/C07.v", "Properties/ModelTie.v"]
 RULE = ("well-formed program association sections with pointer_field 0 built by the Coq serialiser from logical entry lists: "
         "every entry count 0..42 (several shapes each: distinct programs, duplicate program numbers, network entry "
         "program_number 0 first/middle/last/only, PIDs 0/1/0x1FFF and random with all reserved-bit patterns), entry counts "
